@@ -58,7 +58,8 @@ CONSTANTS NAddr,      \* addresses 1..NAddr
           MaxConn,    \* peer objects handed to the dispatcher in total
           MaxBatch,   \* batches per history
           MaxReq,     \* requests per batch 1..MaxReq
-          Retries,    \* set of retry caps; 0 = NoRetryMax
+          Retries,    \* set of retry caps (NumRetries), 0 included
+          NoMaxes,    \* subset of {0,1}: NoRetryMax() not given / given
           Hards,      \* subset of {0,1}: hard timeout far away / armed
           Progs,      \* subset of {0,1}: idle timeout off / on
           MaxFail,    \* failing results per history
@@ -75,7 +76,7 @@ vars == <<bat, jobs, work, cq, wk, rank, ws, verd, ans, dsp, cnt, abs, act, viol
 Addrs == 1..NAddr
 
 NoAct == [op |-> "Init", res |-> "ok", a |-> 0, i |-> 0, b |-> 0, k |-> 0, j |-> 0,
-          e |-> 0, n |-> 0, retr |-> 0, hard |-> 0, prog |-> 0, g |-> 0]
+          e |-> 0, n |-> 0, retr |-> 0, nomax |-> 0, hard |-> 0, prog |-> 0, g |-> 0]
 
 ----------------------------------------------------------------------------
 \* Where the dispatcher is (derived; it has no program counter of its own).
@@ -153,11 +154,11 @@ WorkerExitAny(a, i) ==
 WorkerExit(a, i) == Settled /\ WorkerExitAny(a, i)
 
 \* Query :703 + NewBatch arm :648.
-Query(n, retr, hard, prog) ==
+Query(n, retr, nomax, hard, prog) ==
   /\ Waiting /\ Len(bat) < MaxBatch
   /\ LET b  == Len(bat) + 1
          j0 == Len(jobs)
-     IN  /\ bat' = Append(bat, [n |-> n, retr |-> retr, hard |-> hard, prog |-> prog,
+     IN  /\ bat' = Append(bat, [n |-> n, retr |-> retr, nomax |-> nomax, hard |-> hard, prog |-> prog,
                                 live |-> TRUE, rem |-> n, gen |-> prog, hardx |-> FALSE,
                                 cancel |-> FALSE, icancel |-> FALSE])
          /\ jobs' = jobs \o [k \in 1..n |-> [b |-> b, k |-> k, tries |-> 0]]
@@ -166,29 +167,31 @@ Query(n, retr, hard, prog) ==
          /\ verd' = Append(verd, <<>>)
          /\ ans' = Append(ans, Zeros(n))
          /\ UNCHANGED <<wk, rank, ws, dsp, cnt>>
-         /\ Finish([NoAct EXCEPT !.op = "Query", !.b = b, !.n = n, !.retr = retr,
+         /\ Finish([NoAct EXCEPT !.op = "Query", !.b = b, !.n = n, !.retr = retr, !.nomax = nomax,
                                  !.hard = hard, !.prog = prog])
 
 \* Query while the dispatcher can take nothing (stuck in the hand-off, or
 \* dead): the caller blocks in `w.newBatches <-` :713 (quit is not closed).
-QueryBlocked(n, retr, hard, prog) ==
+QueryBlocked(n, retr, nomax, hard, prog) ==
   /\ Blocked \/ dsp = "dead"
   /\ Len(bat) < MaxBatch
   /\ UNCHANGED <<bat, jobs, work, cq, wk, rank, ws, verd, ans, dsp, cnt>>
   /\ Finish([NoAct EXCEPT !.op = "Query", !.res = "blocked", !.b = Len(bat) + 1, !.n = n,
-                          !.retr = retr, !.hard = hard, !.prog = prog])
+                          !.retr = retr, !.nomax = nomax,
+                          !.hard = hard, !.prog = prog])
 
 \* Query after Stop: :718.
-QueryStopped(n, retr, hard, prog) ==
+QueryStopped(n, retr, nomax, hard, prog) ==
   /\ dsp = "stopped" /\ Len(bat) < MaxBatch
-  /\ bat' = Append(bat, [n |-> n, retr |-> retr, hard |-> hard, prog |-> prog,
+  /\ bat' = Append(bat, [n |-> n, retr |-> retr, nomax |-> nomax, hard |-> hard, prog |-> prog,
                          live |-> FALSE, rem |-> n, gen |-> 0, hardx |-> FALSE,
                          cancel |-> FALSE, icancel |-> FALSE])
   /\ verd' = Append(verd, <<5>>)
   /\ ans' = Append(ans, Zeros(n))
   /\ UNCHANGED <<jobs, work, cq, wk, rank, ws, dsp, cnt>>
   /\ Finish([NoAct EXCEPT !.op = "Query", !.res = "shutdown", !.b = Len(bat) + 1, !.n = n,
-                          !.retr = retr, !.hard = hard, !.prog = prog])
+                          !.retr = retr, !.nomax = nomax,
+                          !.hard = hard, !.prog = prog])
 
 \* End of a batch: verdict v, stopTimers, delete(currentBatches, b).
 EndBatch(B, b, v, closeInternal) ==
@@ -233,7 +236,7 @@ ResultJ(a, i, j, e) ==
         ELSE
         /\ dsp' = dsp /\ wk' = wk1
         /\ LET requeued == /\ B.live /\ e \in {1, 2, 4}
-                            /\ ~(B.retr # 0 /\ jobs[j].tries + 1 >= B.retr)
+                            /\ ~(B.nomax = 0 /\ jobs[j].tries + 1 >= B.retr)
            IN  cq' = IF requeued THEN cq \cup {j} ELSE cq \ {j}     \* :445 / :553
         /\ IF ~B.live
            THEN /\ UNCHANGED <<bat, jobs, work, rank, verd>>
@@ -245,10 +248,10 @@ ResultJ(a, i, j, e) ==
                 /\ Finish(A("cancel"))
            ELSE IF e # 0
            THEN LET r1 == IF e = 2 THEN ResetR(rank, a) ELSE Punish(rank, a)
-                    t1 == IF B.retr = 0 THEN jobs[j].tries ELSE jobs[j].tries + 1
+                    t1 == IF B.nomax = 1 THEN jobs[j].tries ELSE jobs[j].tries + 1   \* :496
                 IN  /\ rank' = r1
                     /\ jobs' = [jobs EXCEPT ![j].tries = t1]
-                    /\ IF B.retr # 0 /\ t1 >= B.retr
+                    /\ IF B.nomax = 0 /\ t1 >= B.retr                               \* :503
                        THEN /\ bat' = EndBatch(bat, bn, e, FALSE)
                             /\ verd' = [verd EXCEPT ![bn] = Append(@, e)]
                             /\ work' = work
@@ -361,7 +364,7 @@ Init ==
   /\ cnt = [conn |-> 0, fail |-> 0, exit |-> 0, cancel |-> 0, stale |-> 0, ok |-> 0]
   /\ abs = AbsInit /\ act = NoAct /\ viol = {}
 
-Opts == (1..MaxReq) \X Retries \X Hards \X Progs
+Opts == (1..MaxReq) \X Retries \X NoMaxes \X Hards \X Progs
 Opt1 == CHOOSE o \in Opts : TRUE
 
 Next ==
@@ -369,9 +372,9 @@ Next ==
   \/ Gone
   \/ \E a \in Addrs : Connect(a)
   \/ \E a \in Addrs : \E i \in 1..MaxConn : WorkerExit(a, i)
-  \/ \E o \in Opts : Query(o[1], o[2], o[3], o[4])
-  \/ QueryBlocked(Opt1[1], Opt1[2], Opt1[3], Opt1[4])     \* the options play no role there
-  \/ QueryStopped(Opt1[1], Opt1[2], Opt1[3], Opt1[4])
+  \/ \E o \in Opts : Query(o[1], o[2], o[3], o[4], o[5])
+  \/ QueryBlocked(Opt1[1], Opt1[2], Opt1[3], Opt1[4], Opt1[5])     \* the options play no role there
+  \/ QueryStopped(Opt1[1], Opt1[2], Opt1[3], Opt1[4], Opt1[5])
   \/ \E a \in Addrs : \E i \in 1..MaxConn : \E e \in 0..4 : Result(a, i, e)
   \/ \E a \in Addrs : \E i \in 1..MaxConn : \E e \in 0..4 : ResultBlocked(a, i, e)
   \/ \E b \in 1..MaxBatch : \E g \in 1..(MaxOk + 1) : Wake(b, g)
